@@ -79,7 +79,7 @@ func newNSess(run *vh.Run, fd *findings, rng *vh.Rng, label string) *nsess {
 	for _, a := range s.n.addrs {
 		ac := &acct{addr: a, id: types.ToAccountID(a)}
 		s.v.accts = append(s.v.accts, ac)
-		s.emit(fmt.Sprintf("acct %s %s %s", hx(a), hx(ac.id[:]), coins(1000000)), "ok", false)
+		s.emit(fmt.Sprintf("acct %s %s %s", hx(a), hx(ac.id[:]), coins(genesisCoins)), "ok", false)
 	}
 	return s
 }
